@@ -110,7 +110,7 @@ def run(ctx):
             if explain_with_dev(ctx, tfile, "explain-%d" % res["test"]):
                 fid = FID
         what = "real guard diverges from the strict spec at step %d of %s: %s (expected %s, observed %s)" % (
-            res.get("step"), acts, res.get("why"), res.get("expected"), res.get("observed"))
+            res.get("step", 0), acts, res.get("why"), res.get("expected"), res.get("observed"))
         ctx.deviation(fid, what, dict(kind="edge-test", steps=t, result=res))
     ctx.cov["traces_validated_against_impl"] += len(tests)
     ctx.sample(dict(kind="replayed path", steps=[s["act"] for s in tests[min(len(tests) - 1, 40)]]))
